@@ -13,14 +13,25 @@ upgraded document, by the real loader, and no second propdef/package is needed.
 """
 
 PROP = {
-    "pkg": "internal/configmigrate",
-    "files": [
-        "configmigrate/c13_model_test.go",
-        "configmigrate/c13_gen_test.go",
-        "configmigrate/c13_props_test.go",
-        "configmigrate/c13_regress_test.go",
+    "parts": [
+        {"name": "migrate", "pkg": "internal/configmigrate",
+         "files": [
+             "configmigrate/c13_model_test.go",
+             "configmigrate/c13_gen_test.go",
+             "configmigrate/c13_props_test.go",
+             "configmigrate/c13_regress_test.go",
+         ],
+         "extra_overlay": {"internal/home/zz_verif_c13_load.go": "home/c13_load.go"},
+         "tests": [
+             ("TestVFC13Valid", (300, 1000)),
+             ("TestVFC13Shape", (600, 2500)),
+             ("TestVFC13Bytes", (1200, 4000)),
+             ("TestVFC13Auth", (30, 60), {"shards": (1, 8), "shrinktime": "5s"}),
+         ],
+     "plain": ["TestVFC13RegressNullObject", "TestVFC13RegressNullDocument", "TestVFC13Golden"]},
+        {"name": "startup", "pkg": "internal/home", "files": ["home/common_assembly_test.go", "home/c13_startup_test.go"],
+         "tests": [("TestVFC13StartupUpgrade", (300, 2000))], "shards": (2, 8)},
     ],
-    "extra_overlay": {"internal/home/zz_verif_c13_load.go": "home/c13_load.go"},
     "level": "exploration",
     "technique": "property-based testing (rapid): metamorphic oracles (every split point of the version range, "
                  "idempotence), frame oracle from a table of the keys each step names, constructive expectation "
@@ -50,13 +61,6 @@ PROP = {
                   "bytes and is not observed on disk here (C14 covers that writer). Measured cost is ~60-100 ms per "
                   "document (about 60 Migrate calls for an old document), an order of magnitude above the design "
                   "estimate, hence the smaller case counts.",
-    "tests": [
-        ("TestVFC13Valid", (300, 1000)),
-        ("TestVFC13Shape", (600, 2500)),
-        ("TestVFC13Bytes", (1200, 4000)),
-        ("TestVFC13Auth", (30, 60), {"shards": (1, 8), "shrinktime": "5s"}),
-    ],
-    "plain": ["TestVFC13RegressNullObject", "TestVFC13RegressNullDocument", "TestVFC13Golden"],
     "shards": (2, 16),
     "workers": (4, 16),
     "rule": "One evaluation = one generated document put through the upgrade with all oracles (plus 17 frozen "
